@@ -43,6 +43,9 @@ type Conn struct {
 	// OnWrite, when set, is called when a body write arrives, before its bytes are consumed (a simulator yield here lets
 	// other requests run while the caller's buffer is in flight).
 	OnWrite func()
+	// OnHeader, when set, is called when a final header arrives (a slow client: whoever answers - a route handler or one
+	// of the router's own handlers - is inside its write while other tasks run).
+	OnHeader func()
 }
 
 func NewConn() *Conn { return &Conn{H: http.Header{}, FailAfter: -1} }
@@ -53,6 +56,9 @@ func (c *Conn) WriteHeader(code int) {
 	if code >= 100 && code <= 199 && code != 101 {
 		c.Events = append(c.Events, ConnEvent{Kind: "info", Code: code})
 		return
+	}
+	if c.OnHeader != nil {
+		c.OnHeader()
 	}
 	c.Events = append(c.Events, ConnEvent{Kind: "header", Code: code})
 	c.Finals++
